@@ -233,6 +233,7 @@ def translate(repo):
     tree = pynorm.normalise_light(tree, signatures=sigs)
     tree = pynorm.inline_expression_helpers(tree, set())   # module-level private helpers called from the methods
     tree = pynorm.inline_helpers(tree, set())
+    tree = pynorm.fold_all_constant_ifs(tree)               # e.g. a validation helper inlined at the default of a new parameter
     ast.fix_missing_locations(tree)
     out = ["import PyemvModel.Cvn",
            "/-! GENERATED by harness/translate_cvn.py from pyemv/cvn.py — do not edit. -/",
